@@ -23,7 +23,8 @@ A_CONST = "callee contract: util::is_jsx_attr_value_constant replaced by an orac
 ISCONST = ["isconst_k0_w0", "isconst_k1_w0", "isconst_k2_w0", "isconst_k3_w0", "isconst_k4_w0", "isconst_k5_w0", "isconst_k6_w0",
            "isconst_k0_w1", "isconst_k1_w1", "isconst_k3_w1", "isconst_k5_w1", "isconst_k0_w2", "isconst_k1_w2", "isconst_k4_w2",
            "isconst_k0_w3", "isconst_k1_w3", "isconst_k2_w3", "isconst_k6_w3", "isconst_k3_w4", "isconst_k3_w5", "isconst_value_kinds"]
-ISCONST_Q = ["isconst_k0_w0", "isconst_k1_w0", "isconst_k2_w0", "isconst_k3_w0", "isconst_k5_w0", "isconst_k1_w1", "isconst_k3_w1", "isconst_k3_w4", "isconst_value_kinds"]
+ISCONST_Q = ["isconst_k0_w0", "isconst_k1_w0", "isconst_k2_w0", "isconst_k3_w0", "isconst_k4_w0", "isconst_k5_w0", "isconst_k6_w0", "isconst_k0_w1", "isconst_k1_w1", "isconst_k3_w1", "isconst_k5_w1",
+             "isconst_k0_w2", "isconst_k1_w2", "isconst_k4_w2", "isconst_k3_w4", "isconst_k3_w5", "isconst_value_kinds"]
 PLAIN = ["attr_class_dyn", "attr_style_dyn", "attr_key_dyn", "attr_ref_dyn", "attr_on_dyn", "attr_nativeon_dyn", "attr_onclick_camel_dyn",
          "attr_onclick_lower_dyn", "attr_onfoo_dyn", "attr_onupdate_dyn", "attr_id_dyn", "attr_id_bool", "attr_id_str", "attr_class_str", "attr_onfoo_bool"]
 DARM = ["darm_normal", "darm_html", "darm_text", "darm_vmodel_plain", "darm_vmodel_strarg", "darm_vmodel_computed", "darm_vmodel_nullarg", "darm_slots_some", "darm_slots_none"]
@@ -41,9 +42,9 @@ UNITS = [
     U("U-const", ["patch_flags::PatchFlags", "slot_flag::SlotFlag"], ["const_patch_flags"], ["C13"], domain="constants: complete", mem_gb=4, timeout=300),
     U("U-defaults", ["options::Options::default"], ["options_default"], ["C14"], domain="no input: complete", mem_gb=4, timeout=300, assumes=[A_DROP]),
     U("U-isconst", ["util::is_jsx_attr_value_constant", "util::is_constant"], ISCONST_Q, ["C13"], completeness="bounded",
-      domain="leaf kinds {opaque, identifier, undefined, string, call} bare, and in array / object / spread wrappers (subset), nesting depth <= 2", mem_gb=6, timeout=900, assumes=[A_DROP, A_CLONE]),
+      domain="7 leaf kinds bare and in array / two-element array / spread wrappers, nesting depth <= 2 (the object-literal wrapper is thorough-tier)", mem_gb=6, timeout=900, assumes=[A_DROP, A_CLONE]),
     U("U-isconst-more", ["util::is_jsx_attr_value_constant", "util::is_constant"], [h for h in ISCONST if h not in ISCONST_Q], ["C13"], completeness="bounded", tier="thorough",
-      domain="remaining leaf x wrapper combinations, nesting depth <= 2", mem_gb=6, timeout=1200, assumes=[A_DROP, A_CLONE]),
+      domain="4 leaf kinds inside an object literal", mem_gb=24, timeout=2400, assumes=[A_DROP, A_CLONE]),
     U("U-tag", ["VueJsxTransformVisitor::transform_tag", "VueJsxTransformVisitor::is_component", "VueJsxTransformVisitor::import_from_vue"],
       TAGS + ["tag_member", "tag_member_fragment", "tag_member_keepalive", "tag_member_fragment_alias"], ["C01", "C02", "C03", "C08"], domain="9 tag names x {no pattern, ^x-} x symbolic {unresolved, 4 options}", mem_gb=6, timeout=900, assumes=[A_DROP, A_CLONE, A_FMT]),
     U("U-tag-fragment", ["VueJsxTransformVisitor::is_component"], ["tag_fragment_not_component"], ["C02", "C03", "C10"], domain="`Fragment` x symbolic history", mem_gb=8, assumes=[A_DROP, A_FMT]),
@@ -77,18 +78,18 @@ D12 = {"memcmp.0": 33}
 UNITS += [
     U("U-dirspell", ["directive::parse_directive"], [h for h in DIRSPELL if h not in DIRSPELL_MODS], ["C04", "C08"], completeness="bounded",
       domain="10 concrete directive spellings without modifiers (kebab, camel, inner capitals, names starting with `v`, multi-byte first letter, namespaced arg) x symbolic host kind", mem_gb=8, timeout=1200, unwindset={"memcmp.0": 12}, assumes=[A_DROP, A_CLONE]),
-    U("U-dirspell-mods", ["directive::parse_directive", "directive::transform_modifiers"], DIRSPELL_MODS, ["C04", "C07", "C08"], completeness="bounded", tier="thorough",
+    U("U-dirspell-mods", ["directive::parse_directive", "directive::transform_modifiers"], DIRSPELL_MODS, ["C04", "C07", "C08"], completeness="bounded", tier="out_of_reach",
       domain="6 spellings with `_mod` suffixes (1-2 modifiers, with arg, with the [v] form, digit-leading modifier, empty name): std BTreeSet construction/iteration on symbolic data (CBMC tarpit: > 8 GB / > 20 min each)",
       mem_gb=24, timeout=5400, unwindset={"memcmp.0": 12}, assumes=[A_DROP, A_CLONE]),
     U("U-dirval", ["directive::parse_directive", "directive::transform_modifiers"], [h for h in DIRVAL if h not in DIRVAL_SLOW], ["C04", "C07", "C08"], completeness="bounded",
       domain="6 value forms ([v], [v,arg], [], hole, absent, string)", mem_gb=8, timeout=1200, unwindset={"memcmp.0": 12}, assumes=[A_DROP, A_CLONE]),
-    U("U-dirval-mods", ["directive::parse_directive", "directive::parse_modifiers", "directive::transform_modifiers"], DIRVAL_SLOW, ["C04", "C07", "C08"], completeness="bounded", tier="thorough",
+    U("U-dirval-mods", ["directive::parse_directive", "directive::parse_modifiers", "directive::transform_modifiers"], DIRVAL_SLOW, ["C04", "C07", "C08"], completeness="bounded", tier="out_of_reach",
       domain="3 value forms with a modifier list ([v,[mods]], [v,arg,[mods]], non-identifier modifier): std BTreeSet::from_iter sorts (CBMC tarpit)", mem_gb=16, timeout=3600, unwindset={"memcmp.0": 12}, assumes=[A_DROP, A_CLONE]),
     U("U-vhtml", ["directive::parse_v_html_directive", "directive::parse_v_text_directive"], VHTML, ["C04", "C08"],
       domain="every JSXAttrValue kind (absent, string, expression, array form, empty container, element, fragment) x {v-html, v-text}: complete over value kinds", mem_gb=8, timeout=900, assumes=[A_DROP, A_CLONE]),
     U("U-vmodel-parse", ["directive::parse_v_model_directive"], [h for h in VMODEL if h not in VMODEL_SLOW], ["C05"], completeness="bounded",
       domain="6 v-model spellings/value forms without modifiers (plain, camel, `:arg`, `:arg` with the [v] form, [v, \"arg\"], [v, computed]) x symbolic host kind", mem_gb=8, timeout=1200, unwindset={"memcmp.0": 12}, assumes=[A_DROP, A_CLONE]),
-    U("U-vmodel-parse-mods", ["directive::parse_v_model_directive", "directive::parse_modifiers"], VMODEL_SLOW, ["C05"], completeness="bounded", tier="thorough",
+    U("U-vmodel-parse-mods", ["directive::parse_v_model_directive", "directive::parse_modifiers"], VMODEL_SLOW, ["C05"], completeness="bounded", tier="out_of_reach",
       domain="5 v-model forms with modifiers (suffix / list): std BTreeSet on symbolic data", mem_gb=24, timeout=5400, unwindset={"memcmp.0": 12}, assumes=[A_DROP, A_CLONE]),
     U("U-resolvedir", ["VueJsxTransformVisitor::resolve_directive"], RESOLVE, ["C04", "C05"],
       domain="directive {show, model, other} x host {input, select, textarea, other} x type attribute {absent, checkbox, radio, other string, dynamic, after another attribute} x symbolic options", mem_gb=8, timeout=900, assumes=[A_DROP, A_CLONE, A_FMT]),
@@ -100,7 +101,7 @@ UNITS += [
     U("U-isdc", ["VueJsxTransformVisitor::is_define_component_call", "VueJsxTransformVisitor::visit_mut_import_decl"], ["define_component_identification"] + IMPORTS, ["C20"],
       domain="5 callee shapes x recorded/not; 8 import declaration shapes", mem_gb=8, assumes=[A_DROP, A_CLONE]),
     U("U-inject", ["inject_define_component_option"], ["inject_no_options", "inject_spread_args"], ["C20"], completeness="bounded", domain="no options argument; spread argument list", mem_gb=8, timeout=900, assumes=[A_DROP, A_CLONE]),
-    U("U-inject-literal", ["inject_define_component_option"], [h for h in INJECT if h not in ("inject_no_options", "inject_spread_args")], ["C20"], completeness="bounded", tier="thorough",
+    U("U-inject-literal", ["inject_define_component_option"], [h for h in INJECT if h not in ("inject_no_options", "inject_spread_args")], ["C20"], completeness="bounded", tier="out_of_reach",
       domain="6 options-literal shapes (other key, same key as identifier / string / shorthand, non-literal options, literal containing a spread); Vec::insert at a computed position makes the SAT instance large", mem_gb=24, timeout=5400, assumes=[A_DROP, A_CLONE]),
     U("U-rttable", ["resolve_type::infer_runtime_type"], ["rt_keywords", "rt_literals"] + RTB[:8], ["C17"], completeness="bounded",
       domain="all keyword kinds of the table, literal kinds, 8 built-in names", mem_gb=8, timeout=1200, assumes=[A_DROP, A_CLONE]),
@@ -117,7 +118,7 @@ UNITS += [
     U("U-step-plain", ["VueJsxTransformVisitor::transform_attrs[plain arm]", "util::is_on"], STEP_PLAIN, ["C13", "C01"],
       domain="plain-attribute arm from an ARBITRARY analysis state (5 symbolic booleans): 10 name classes x {dynamic, value-less, string} x symbolic {host kind, constness, options}; complete over the shared contract's abstract domain",
       mem_gb=6, timeout=600, unwindset={"memcmp.0": 21}, assumes=[A_DROP, A_CLONE, A_TT, A_CONST, A_FMT, A_EXTRACT]),
-    U("U-step-plain-frame", ["VueJsxTransformVisitor::transform_attrs[plain arm]"], ["step_other_fullstate", "step_nativeon_fullstate"], ["C13", "C01"], completeness="bounded",
+    U("U-step-plain-frame", ["VueJsxTransformVisitor::transform_attrs[plain arm]"], ["step_other_fullstate"], ["C13", "C01"], completeness="bounded",
       domain="as U-step-plain with non-empty earlier props / merge arguments / dynamic props (frame: they are kept in place)", mem_gb=12, timeout=900, unwindset={"memcmp.0": 21}, tier="thorough",
       assumes=[A_DROP, A_CLONE, A_TT, A_CONST, A_FMT, A_EXTRACT]),
     U("U-step-spread", ["VueJsxTransformVisitor::transform_attrs[spread arm]"], ["step_spread_expr_merge", "step_spread_expr_nomerge", "step_spread_expr_prev_merge", "step_spread_expr_prev_nomerge",
@@ -148,9 +149,9 @@ UNITS += [
     U("U-children", ["VueJsxTransformVisitor::transform_children", "VueJsxTransformVisitor::wrap_children", "VueJsxTransformVisitor::transform_jsx_text"], CHILDREN_Q, ["C02", "C13"], completeness="bounded",
       domain="child lists {none, empty expression, text + bound identifier} x symbolic host kind and options", mem_gb=10, timeout=1500,
       unwindset={"memcmp.0": 16}, assumes=[A_DROP, A_CLONE, A_TT, A_FMT]),
-    U("U-children-more", ["VueJsxTransformVisitor::transform_children", "VueJsxTransformVisitor::wrap_children"], [h for h in CHILDREN if h not in CHILDREN_Q], ["C02", "C13"], completeness="bounded", tier="thorough",
-      domain="remaining child lists of length <= 2 (expression, text + expression, expression + empty, unbound identifier, spread)", mem_gb=12, timeout=2400, unwindset={"memcmp.0": 16}, assumes=[A_DROP, A_CLONE, A_TT, A_FMT]),
-    U("U-slotflag-stack", ["VueJsxTransformVisitor::transform_children"], ["slot_flag_stack_fill"], ["C13"], completeness="bounded", tier="thorough", domain="two enclosing elements, bound identifier child", mem_gb=12, timeout=2400,
+    U("U-children-more", ["VueJsxTransformVisitor::transform_children", "VueJsxTransformVisitor::wrap_children"], ["children_text_expr", "children_text_unbound_ident", "children_spread_text", "children_bound_spread_text"], ["C02", "C13"], completeness="bounded", tier="thorough",
+      domain="child lists of length 2 (text + expression, text + unbound identifier, spread + text, bound spread + text)", mem_gb=12, timeout=2400, unwindset={"memcmp.0": 16}, assumes=[A_DROP, A_CLONE, A_TT, A_FMT]),
+    U("U-slotflag-stack", ["VueJsxTransformVisitor::transform_children"], ["slot_flag_stack_fill"], ["C13"], completeness="bounded", domain="two enclosing elements, bound identifier child", mem_gb=8, timeout=900,
       unwindset={"memcmp.0": 16}, assumes=[A_DROP, A_CLONE, A_TT, A_FMT]),
 ]
 
@@ -168,7 +169,7 @@ UNITS += [
     U("U-regexvisit", ["options::RegexVisitor::visit_str", "options::RegexVisitor::visit_string"], ["regex_visit_valid_str", "regex_visit_invalid_str", "regex_visit_valid_string", "regex_visit_invalid_string"], ["C14"],
       completeness="bounded", domain="2 valid and 2 invalid patterns x {visit_str, visit_string}; `regex::Regex::new` by the stand-in's contract (callee assumed)", mem_gb=4, timeout=600, assumes=[A_DROP, A_FMT]),
     U("U-wrap", ["VueJsxTransformVisitor::wrap_children"], ["wrap_no_slots"], ["C13"], completeness="bounded", domain="no v-slots x symbolic options and slot flag", mem_gb=6, timeout=900, assumes=[A_DROP, A_CLONE, A_FMT]),
-    U("U-wrap-slots", ["VueJsxTransformVisitor::wrap_children"], ["wrap_object_slots", "wrap_expr_slots"], ["C13"], completeness="bounded", tier="thorough", domain="v-slots {object literal, expression} x symbolic options and slot flag", mem_gb=16, timeout=2400, assumes=[A_DROP, A_CLONE, A_FMT]),
+    U("U-wrap-slots", ["VueJsxTransformVisitor::wrap_children"], ["wrap_object_slots", "wrap_expr_slots"], ["C13", "C12"], completeness="bounded", domain="v-slots {object literal, expression} x symbolic options and slot flag", mem_gb=12, timeout=900, assumes=[A_DROP, A_CLONE, A_FMT]),
 ]
 
 UNITS += [
@@ -199,8 +200,10 @@ PROPERTIES = {}
 
 
 def units_for(prop, tier):
+    """quick: units of tier quick; thorough: quick + thorough.  Units marked out_of_reach were built and tried (>= 40 GB /
+    40 min without a verdict, see DESIGN.md section 4) and are never run: they are kept as a record, not as a claim."""
     out = []
     for u in UNITS:
-        if prop in u["props"] and (tier == "thorough" or u["tier"] == "quick"):
+        if prop in u["props"] and (u["tier"] == "quick" or (tier == "thorough" and u["tier"] == "thorough")):
             out.append(u)
     return out
